@@ -2,4 +2,4 @@
 # verify_all.sh <ID>... : runs verify_seed.sh for every /tmp/seeds/<ID>/<k> that has a patch and no verify.txt yet (PAR at a time).
 # A patch that no longer applies to /repo HEAD (a later fix touched the same lines) is verified against the commit it was written for.
 for ID in "$@"; do for k in 1 2 3; do d=/tmp/seeds/$ID/$k; [ -f $d/patch.diff ] && [ ! -f $d/verify.txt ] && echo $d; done; done |
-  xargs -r -P ${PAR:-4} -I{} sh -c 'B=HEAD; git -C /repo apply --check {}/patch.diff 2>/dev/null || B=3902211; BASE=$B /verif/tools/verify_seed.sh {} > {}/verify.txt.tmp 2>&1; echo "base=$B" >> {}/verify.txt.tmp; mv {}/verify.txt.tmp {}/verify.txt; echo "{} $(grep RESULT {}/verify.txt) base=$B"'
+  xargs -r -P ${PAR:-4} -I{} sh -c 'B=$(/verif/tools/pick_base.sh {}/patch.diff); BASE=$B /verif/tools/verify_seed.sh {} > {}/verify.txt.tmp 2>&1; echo "base=$B" >> {}/verify.txt.tmp; mv {}/verify.txt.tmp {}/verify.txt; echo "{} $(grep RESULT {}/verify.txt) base=$B"'
